@@ -103,7 +103,7 @@ def run(ctx, cases_override=None, only=None):
             r = json.loads(line)
             kinds[r["ev"]] = kinds.get(r["ev"], 0) + 1
             if r["ev"] == "Reset":
-                shapes.add(json.dumps([r["fmt"], r["ver"], r["kf"], r["floats"], r["shape"], r.get("namelen", -1), r.get("texlen", -1)], sort_keys=True))
+                shapes.add(json.dumps([r["fmt"], r["ver"], r["kf"], r["floats"], r["shape"], r.get("namelen", -1), r.get("texlen", -1), r.get("alias", 0), r.get("kfmask", -1), r.get("mask", -1)], sort_keys=True))
             if kinds[r["ev"]] <= 1:
                 s = dict(r)
                 for k in ("secs", "psecs"):
@@ -121,7 +121,7 @@ def run(ctx, cases_override=None, only=None):
         "evaluations": res["events"] - res["traces"],
         "distinct_nontrivial": nontrivial,
         "rule": "counted from the Reset events of the trace actually validated: distinct (format, version, key-frame switch, float class, cardinality vector / anim shape, "
-                "name length, texture-name length) tuples with at least one populated section (a non-zero cardinality; for anim a non-zero section/bone count or data); "
+                "name length, texture-name length, aliasing pattern, per-element presence pattern) tuples with at least one populated section (a non-zero cardinality; for anim a non-zero section/bone count or data); "
                 "every case is written, walked, parsed, rewritten and converted (M2: to all 5 versions through both public APIs; skin: 4 targets; anim: 2)",
         "exhaustive": False,
         "rejected_pairs": len(bad),
